@@ -734,8 +734,16 @@ class Engine:
                 raise BindingLost("loop variable %r is ambiguous: %s" % (name, cands))
             v = p.env[live[0]]
         else:
-            # harmless rename: unique carried scalar variable that no other name explains
-            raise BindingLost("loop variable %r not found" % name)
+            # harmless rename of a local: bind the unique loop-carried scalar source variable that is
+            # not the loop's induction variable (ambiguity -> BindingLost -> UNDECIDED, never a violation)
+            bases = {}
+            for v_ in li.carried:
+                if v_.startswith("$") or not isinstance(p.env.get(v_), Sc):
+                    continue
+                bases.setdefault(v_.split(".")[0], []).append(v_)
+            if len(bases) != 1 or len(list(bases.values())[0]) != 1:
+                raise BindingLost("loop variable %r not found" % name)
+            v = p.env[list(bases.values())[0][0]]
         return v.t if isinstance(v, Sc) else v
 
     def _check_inv(self, li, p, phase, entry_heap):
